@@ -193,7 +193,7 @@ fn reported<P: Provenance>(pg: &Program, provenance: P, swap: bool) -> Vec<Optio
 
 // ---- (c) generated rule programs ----------------------------------------------------------------------------
 // Three uncertain inputs (a p1 b), (a p2 b), (a p3 b); derived predicates m1, m2, g.  Rule pool: every copy rule
-// x -> y and every two-premise rule (x & y) -> z of the shapes below (26 rules); programs = every subset of <= 3
+// x -> y and every two-premise rule (x & y) -> z of the shapes below (28 rules); programs = every subset of <= 3
 // rules and a third of the subsets of 4 (thorough: all of them), in pool order and in reverse order (the order decides in which round a fact is re-derived: e.g.
 // { p1&p2 -> g, p1 -> m1, m1 -> g } re-derives g in round 2 by a proof that uses FEWER inputs).
 fn pool() -> Vec<(Vec<&'static str>, &'static str)> {
@@ -203,6 +203,9 @@ fn pool() -> Vec<(Vec<&'static str>, &'static str)> {
     for (a, b) in [("p1", "p2"), ("p1", "p3"), ("p2", "p3")] { v.push((vec![a, b], "m1")); v.push((vec![a, b], "g")); }
     for p in ["p1", "p2", "p3"] { v.push((vec!["m1", p], "g")); v.push((vec!["m1", p], "m2")); }
     v.push((vec!["m1", "m2"], "g"));
+    // the same fact matching both premises of one rule: p AND p is p (idempotence), not p squared
+    v.push((vec!["p1", "p1"], "m2"));
+    v.push((vec!["m1", "m1"], "g"));
     v
 }
 fn install(r: &mut Reasoner, rules: &[(Vec<&'static str>, &'static str)]) {
@@ -212,7 +215,7 @@ fn install(r: &mut Reasoner, rules: &[(Vec<&'static str>, &'static str)]) {
         r.add_rule(rule(premises, vec![(v("X"), head, v("Y"))]));
     }
 }
-const GEN_PROBS: [[f64; 3]; 2] = [[0.3, 0.6, 0.9], [0.5, 0.25, 0.5]];
+const GEN_PROBS: [[f64; 3]; 3] = [[0.3, 0.6, 0.9], [0.5, 0.25, 0.5], [0.0, 1.0, 0.5]];   // the last set: certain and impossible inputs
 const DERIVED: [&str; 3] = ["m1", "m2", "g"];
 
 fn check_generated(rules: &[(Vec<&'static str>, &'static str)], probs: &[f64; 3]) {
@@ -262,6 +265,7 @@ fn check_generated(rules: &[(Vec<&'static str>, &'static str)], probs: &[f64; 3]
         check_generated(&rules, &GEN_PROBS[0]);
         check_generated(&rev, &GEN_PROBS[0]);
         if thorough || count % 4 == 0 { check_generated(&rules, &GEN_PROBS[1]); }
+        if thorough || count % 4 == 1 { check_generated(&rules, &GEN_PROBS[2]); }
     };
     for a in 0..n { go(&[a]); for b in a + 1..n { go(&[a, b]); for c in b + 1..n { go(&[a, b, c]); for d in c + 1..n { if thorough || (a + b + c + d) % 3 == 0 { go(&[a, b, c, d]); } } } } }
     assert!(count > 2000);
